@@ -16,6 +16,7 @@ every traced system call and at partial writes.  NOT a theorem: that each correl
 re-assigns every entry it changes in place (repairs 090b314 / a97f9c4 made it so; checked by (2)).
 -/
 import SmppVerif.Lemmas.Persist
+import SmppVerif.Gen.Site
 
 namespace SmppVerif.Props.C19
 open SmppVerif SmppVerif.Persist SmppVerif.Lemmas.Persist
@@ -85,6 +86,10 @@ theorem inplace_change_lost :
     serialiser) and a crash sequence is non-trivial -/
 example : (crashStates ({} : FS) (saveTrace [102] [1, 1, 5])).length = 8 := by decide +kernel
 
+/-- TIE TO THE SOURCE (regenerated on every run, Gen/Site.lean): `_save` opens the temporary file, serialises and writes, leaves
+    the `with` block (flush and close) and only then renames — the system-call order `saveTrace` models -/
+theorem save_step_order : Gen.Site.save = ["open", "json_encode", "write", "end-with", "replace"] := by decide
+
 end SmppVerif.Props.C19
 
 #print axioms SmppVerif.Props.C19.save_crash_atomic
@@ -94,3 +99,4 @@ end SmppVerif.Props.C19
 #print axioms SmppVerif.Props.C19.store_files_distinct
 #print axioms SmppVerif.Props.C19.inplace_write_not_atomic
 #print axioms SmppVerif.Props.C19.inplace_change_lost
+#print axioms SmppVerif.Props.C19.save_step_order
